@@ -177,6 +177,19 @@ var xUnits = []xUnit{
 	{Name: "tr_tup_Encode_entry", Dir: "tars/protocol/tup", Func: "UniAttribute.Encode", Writer: tupWriter, Deep: true,
 		From: "err = os.WriteString(k, 0)", To: "err = os.WriteBytes(v)", Outs: []string{"err"}, After: []string{"if err != nil {\n\treturn err\n}"}},
 	{Name: "tr_tup_Decode", Dir: "tars/protocol/tup", Func: "UniAttribute.Decode", State: tupReader, Recv: true, Fuel: true, StrMaps: true},
+	// C07: the receive loops per read EVENT that is not data (conn.Read returned an error): return, or next round with the buffer
+	{Name: "tr_srv_recv_event", Dir: "tars/transport", Func: "tcpHandler.recv", Deep: true, LoopBody: true, NilIsEmpty: []string{"currBuffer"},
+		From: "if err != nil {", To: "if err != nil {", Outs: []string{"currBuffer"}, After: []string{"currBuffer = append(currBuffer, buffer[:n]...)", "for {"},
+		Oracles: map[string]xOracle{"atomic.LoadInt32(&t.server.isClosed)": {"is_closed", "Z"}, "time.Now().Unix()": {"now_", "Z"},
+			"isNoDataError(err)": {"no_data", "bool"}, "err == io.EOF": {"is_eof", "bool"}},
+		Reads: map[string]xOracle{"connSt.numInvoke": {"num_invoke", "Z"}, "connSt.idleTime": {"idle_time", "Z"}, "cfg.IdleTimeout": {"idle_timeout", "Z"}},
+		Ignore: []string{`TLOG.Debugf("%s closed: %d, read %d, nil buff: %d, err: %v", t.server.config.Address, atomic.LoadInt32(&t.server.isClosed), n, len(currBuffer), err)`,
+			`TLOG.Debug("connection closed by remote:", conn.RemoteAddr())`, `TLOG.Error("read package error:", reflect.TypeOf(err), err)`}},
+	{Name: "tr_cli_recv_event", Dir: "tars/transport", Func: "connection.recv", Deep: true, LoopBody: true,
+		From: "if err != nil {", To: "if err != nil {", Outs: []string{"currBuffer"}, After: []string{"currBuffer = append(currBuffer, buffer[:n]...)", "for {"},
+		Oracles: map[string]xOracle{"isNoDataError(err)": {"no_data", "bool"}, "err.(*net.OpError)": {"is_op_error", "bool"}, "err == io.EOF": {"is_eof", "bool"}},
+		Ignore: []string{`TLOG.Errorf("net.OpError: %v, error: %v", conn.RemoteAddr(), err)`, `TLOG.Debugf("connection closed by remote: %v, error: %v", conn.RemoteAddr(), err)`,
+			`TLOG.Errorf("read package error: %v", err)`, "c.close(conn)"}},
 	{Name: "tr_cli_recv_chunk", Dir: "tars/transport", Func: "connection.recv", Deep: true, Fuel: true,
 		From: "currBuffer = append(currBuffer, buffer[:n]...)", To: "for {", Outs: []string{"currBuffer"}, After: []string{}, Fresh: []string{"currBuffer"},
 		Writer: &xWriter{Type: "list (list N)", Prims: map[string]xPrim{"c.client.protocol.Recv": {"go_deliver", []int{0}}}},
@@ -660,7 +673,11 @@ func xlateUnit(root string, u *xUnit, units []xUnit, ld *xLoader, records map[st
 			x.fail(fd, "%d statements follow the slice, the unit expects %d", len(after), len(u.After))
 		}
 		for i, s := range after {
-			if x.src(s) != u.After[i] {
+			got := x.src(s)
+			if strings.HasSuffix(u.After[i], "{") { // a compound statement pinned by its header only (its body belongs to another unit)
+				got = strings.SplitN(got, "\n", 2)[0]
+			}
+			if got != u.After[i] {
 				x.fail(s, "statement after the slice changed: %q, the unit expects %q", x.src(s), u.After[i])
 			}
 		}
@@ -698,6 +715,14 @@ func xlateUnit(root string, u *xUnit, units []xUnit, ld *xLoader, records map[st
 				}
 				return true
 			})
+		}
+		for _, o := range u.Outs { // a variable handed on that the statements do not mention is a parameter all the same
+			for id, obj := range x.info.Defs {
+				if v, ok := obj.(*types.Var); ok && id.Name == o && fd.Pos() <= v.Pos() && v.Pos() < lo && !seen[v] && !v.IsField() {
+					seen[v] = true
+					free = append(free, v)
+				}
+			}
 		}
 		sort.Slice(free, func(i, j int) bool { return free[i].Pos() < free[j].Pos() })
 		for _, v := range free {
@@ -790,6 +815,10 @@ func xlateUnit(root string, u *xUnit, units []xUnit, ld *xLoader, records map[st
 		var term string
 		term, stateT, _ = x.state(fd, outs)
 		final = "Next " + term
+		if u.LoopBody { // break / continue / return are told apart, as inside go_loop
+			x.inLoop, x.loopCont, x.loopState = true, true, term
+			x.retType = "((" + stateT + " + " + stateT + ") + " + x.retType + ")"
+		}
 	}
 	x.fnBody = fd.Body.List
 	x.body = body
